@@ -11,6 +11,7 @@ import (
 	"os"
 	"path/filepath"
 	"sort"
+	"strings"
 	"testing"
 	"time"
 
@@ -42,7 +43,8 @@ var assumptions = []string{
 	"OPEN (not demanded either way): WritablePartitions for a partition whose leader id is in no broker list and carries no error; what the read APIs say for a topic whose newest answer is topic-level LEADER_NOT_AVAILABLE (its partial partition list or 'unknown topic' are both accepted, older data is not); whether a per-topic response drops brokers it does not list (the brokers it lists must be present at the listed address; a FULL response must leave exactly its broker list); error values (only 'an error, no data' is demanded for unknown topics/partitions; ErrLeaderNotAvailable is demanded for leaderless partitions and unlisted leader ids); Controller() is judged only against staleness",
 	"DEMANDED although the statement names only refreshes 'that include a topic': a topic missing from the newest FULL response has vanished and is forgotten",
 	"topics with zero partitions are not in the alphabet (Partitions would return ErrUnknownTopicOrPartition for a known topic; the statement says 'lists exactly', the interface doc is silent)",
-	"ATOMICITY: interleavings at quiescent points only (a reader call / the refresher's call / the cluster change / each broker answer are separate actors; all orders); the sync shim has no lock-acquisition hook, so two critical sections of client.lock never interleave inside one macro-step – on the pinned code every read API takes ONE read-lock section for its data and updateMetadata ONE write-lock section, so the granularity loses nothing there, but a mutant that splits updateMetadata's section is invisible to this layer (see limits)",
+	"ATOMICITY: two granularities. (a) quiescent points: a reader call / the refresher's call / the cluster change / each broker answer are separate actors, all orders within the deviation bound; (b) lock granularity (scenarios locks=1): every acquisition of client.lock by a reader or the refresher is a gate (sync-shim hook verifsync.OnLock, parked through gx.Ctl.Gate), default = run the call to completion, deviations = preemptions at lock acquisitions, all schedules within the preemption bound; interleaving INSIDE a critical section (between two memory accesses under the lock) is not explored – the lock excludes it unless the lock itself is broken, which is outside the scheduler's reach",
+	"ATOMICITY oracle: a read must be explained by the reference state after j applied responses for some j between 'responses certainly applied when the call began' and 'responses whose application had begun when it returned' (application begins at the first write-lock acquisition of the goroutine that received the response, is certainly complete when that goroutine's API call returns), and successive reads of one reader need non-decreasing j; responses are folded in application order",
 	"REACHABILITY: behaviours are static per phase (NewClient, 1st refresh, 2nd refresh); 'known broker' = listed by client.Brokers() when the call starts; if the only answering address is a broker the client itself deregistered after a failed request (still listed by the newest metadata) either result is accepted and counted (open:only-a-broker-the-client-itself-forgot-answers); dial time-outs are emulated by the dialer (Net.DialTimeout of fake time), Metadata.Timeout=0",
 	"data races are outside this check (channel-based lock shim, one bubble = one deterministic schedule)",
 }
@@ -201,6 +203,39 @@ func TestCheck(t *testing.T) {
 	}
 	a.report(c)
 
+	// samples: a few actual cases of every layer
+	var samples []interface{}
+	if len(histSamples) > 4 {
+		histSamples = histSamples[1:4]
+	}
+	samples = append(samples, histSamples...)
+	if len(reachSamples) > 2 {
+		reachSamples = reachSamples[:2]
+	}
+	samples = append(samples, reachSamples...)
+	if gs, ok := c.Coverage["samples"].([]interface{}); ok {
+		var first, lock interface{}
+		for _, x := range gs {
+			m, _ := x.(map[string]interface{})
+			sc, _ := m["scenario"].(string)
+			if strings.Contains(sc, "locks=1") {
+				if lock == nil {
+					lock = x
+				}
+			} else if first == nil {
+				first = x
+			}
+		}
+		for _, x := range []interface{}{first, lock} {
+			if x != nil {
+				samples = append(samples, x)
+			}
+		}
+	}
+	if len(samples) > 0 {
+		c.Set("samples", samples)
+	}
+	c.Set("states_rule", "history: visited canonical keys of the three BFS runs (Retry.Max 0/1, Metadata.Full true/false); atomicity: distinct decision-point fingerprints (enabled labels + client dump), measured, not used for pruning")
 	c.Set("states", hs.states+ax.states)
 	c.Set("transitions", hs.transitions+ax.transitions)
 	c.Set("traces_validated_against_impl", r.Execs+ax.execs)
